@@ -587,6 +587,41 @@ def check_shellwords(chk, binary, r, thorough, corp):
     return distinct, len(lists) + len(qs) + len(lines)
 
 
+def exec_through_launcher(case, res, base_env, launcher):
+    """Really run the command TestInstance::make_command built: the launcher binary is the real
+    cargo-nextest `__double-spawn` code path, the exec'd program (c15_launcher in its reporting
+    role) prints how it was started. Returns a failing clause or None."""
+    env = dict(base_env)
+    env.update(dict(case["inherited"]))
+    for k, v in res["envs"]:
+        if v is None:
+            env.pop(k, None)
+        else:
+            env[k] = v
+    try:
+        p = subprocess.run([launcher] + res["args"], cwd=res["cwd"], env=env, stdin=subprocess.DEVNULL,
+                           capture_output=True, text=True, timeout=60)
+    except (OSError, ValueError, subprocess.TimeoutExpired) as e:
+        return f"could not run the launcher: {e}"
+    if p.returncode != 0:
+        return f"launcher exited with {p.returncode}: {p.stderr[-400:]}"
+    try:
+        dump = json.loads(p.stdout)
+    except ValueError:
+        return f"unreadable report from the exec'd program: {p.stdout[:300]!r}"
+    prog, args = expected_argv(case)
+    if dump["argv"] != [prog] + args:
+        return f"the exec'd process has argv {dump['argv']!r}, the property demands {[prog] + args!r}"
+    if os.path.realpath(dump["cwd"]) != os.path.realpath(case["cwd"]):
+        return f"the exec'd process runs in {dump['cwd']!r}, the package directory is {case['cwd']!r}"
+    seen = dict((k, v) for k, v in dump["env"])
+    for k, want in expected_fixed_env(case).items():
+        if seen.get(k) != want and not (k == "CARGO_PKG_RUST_VERSION" and in_known_class(case)
+                                        and seen.get(k) == want + ".0"):
+            return f"{k} is {seen.get(k)!r} in the exec'd process, nextest's documented value is {want!r}"
+    return None
+
+
 def witness_case(root):
     """the listed witness of known finding F15a, replayed on every run"""
     return dict(idx=0, root=root, name="it's a \"test\" $x\\ #1", ignored=True, extra=["--test-threads", "1", "a b"],
@@ -626,6 +661,23 @@ def check_commands(chk, binary, r, thorough, corp, seed):
             cases.append(c)
     while len(cases) < (1500 if thorough else 220):
         cases.append(gen_command_case(r, len(cases), os.path.join(tmp, f"c{len(cases)}")))
+    # launcher end to end: the command nextest builds is really executed through the real
+    # `__double-spawn` subcommand (clap parser + DoubleSpawnOpts::exec of cargo-nextest, linked
+    # into c15_launcher), the exec'd program reports its argv / cwd / environment
+    launcher = os.path.join(vlib.TARGET, "debug", "c15_launcher")
+    n_exec = 0
+    if os.path.exists(launcher):
+        names = HOSTILE_NAMES + [gen_word(r, 10) for _ in range(300 if thorough else 30)]
+        for nm in names:
+            c = gen_command_case(r, len(cases), os.path.join(tmp, f"c{len(cases)}"))
+            c["name"], c["double_spawn"], c["exec"] = nm, True, True
+            c["binary_path"], c["cwd"] = launcher, tmp
+            if c["runner"]:
+                c["runner"][0] = launcher
+            cases.append(c)
+    else:
+        chk.violation("broken-obligation", "harness-build",
+                      dict(error="c15_launcher was not built"), no_input=True)
     env = dict(base_env)
     base_seen = dict(base_env)
     impl = run_harness(binary, "command", [harness_case(c) for c in cases], env)
@@ -651,6 +703,14 @@ def check_commands(chk, binary, r, thorough, corp, seed):
                           dict(input=shown, harness_case=harness_case(c), impl=i, clauses=fails,
                                clause=fails[0]))
             return distinct, len(cases)
+        if c.get("exec"):
+            n_exec += 1
+            chk.count("launcher_exec_cases")
+            why = exec_through_launcher(c, i, base_seen, launcher)
+            if why:
+                chk.violation("counterexample", "oracle:launcher-exec",
+                              dict(input=shown, harness_case=harness_case(c), impl=i, clause=why))
+                return distinct, len(cases)
         ni, nm = norm_impl_cmd(i), norm_model_cmd(m)
         if in_known_class(c) and ni.get("built") and \
                 ni["env"].get("CARGO_PKG_RUST_VERSION") == c["pkg"]["rust_version"]:
@@ -729,7 +789,9 @@ def run(tier, seed):
                   "lines through split alone. Commands: every hostile test name with and without the launcher, "
                   "random extra args / cargo [env] tables in up to three config files and --config options "
                   "(force, relative) / inherited environments / build-script env / package metadata / target "
-                  "runner. Non-trivial = a word list with a metacharacter or an empty word; a line containing "
+                  "runner; a further set of commands (hostile and random names) is really executed through "
+                  "the real __double-spawn subcommand and the exec'd process's argv/cwd/env compared. "
+                  "Non-trivial = a word list with a metacharacter or an empty word; a line containing "
                   "a quote, backslash or # or splitting without error; a command with a hostile name or "
                   "argument or a non-empty cargo/inherited environment. Distinct by the full input.",
              traces_validated_against_impl=n1 + n2))
@@ -761,8 +823,16 @@ def replay(path, seed):
         c["entries"] = [tuple(e) for e in c["entries"]]
         base = base_environment()
         env = dict(base)
+        launcher = os.path.join(vlib.TARGET, "debug", "c15_launcher")
+        if c.get("exec"):
+            c["binary_path"], c["cwd"] = launcher, tmp
+            if c["runner"]:
+                c["runner"][0] = launcher
         i = run_harness(binary, "command", [harness_case(c)], env)[0]
         fails, known = oracle_command(c, i, env)
+        if c.get("exec") and not fails:
+            why = exec_through_launcher(c, i, env, launcher)
+            fails = [why] if why else []
         print("implementation:", json.dumps(i)[:3000])
         print("oracle:", fails or "accepts", "| known finding observed:", known)
         return 1 if fails else 0
